@@ -1,5 +1,5 @@
 \* exhaustive, ALL actions together, deeper (thorough)
-CONSTANTS N = 4  Par = {"p", "q"}  NVal = 2  NGrid = 2  MaxDepth = 2  MaxLevel = 5
+CONSTANTS N = 4  Par = {"p", "q"}  NVal = 2  NGrid = 2  MaxDepth = 2  MaxLevel = 6
           GridSlot = "stack"  PickleSerial = "fresh"
 CONSTANTS Keeps <- KeepsSmall  Acts <- ActsAll  Parent0 <- ParentA  Cls0 <- ClsA
           ParOf <- McParOf  GridCls <- McGridCls  MatCls <- McMatCls
